@@ -266,3 +266,105 @@ func ruleCONFINEMENT(p *Program, rep *Report) {
 	rep.OK("CONFINEMENT", "globals", "", fmt.Sprintf("%d package-level variable(s) of pq, none written outside init", nGlob))
 	_ = token.ADD
 }
+
+// ruleWAKEUP (C09): lost-wakeup discipline of the in-process lock.  Any number of readers can wait on
+// lock.shared, so every wake-up of it must be a Broadcast and clearing pendingSet must be followed by one;
+// releasing the last shared lock must wake the (single) exclusive waiter.
+func ruleWAKEUP(p *Program, rep *Report) {
+	rep.Rule("WAKEUP", 3, "lock.shared (many possible waiters) is only ever woken with Broadcast, and the release of Pending reaches such a Broadcast on every path; the release of a Shared lock reaches a Signal/Broadcast of lock.exclusive")
+	shared := p.FieldVar("txfile", "lock", "shared")
+	excl := p.FieldVar("txfile", "lock", "exclusive")
+	condCall := func(c ssa.CallInstruction) (string, *types.Var) {
+		sc := c.Common().StaticCallee()
+		if sc == nil || !(isSyncMethod(sc, "Cond", "Signal") || isSyncMethod(sc, "Cond", "Broadcast")) {
+			return "", nil
+		}
+		return sc.Name(), loadedField(c.Common().Args[0])
+	}
+	nWake := 0
+	for _, fn := range p.SrcFuncs() {
+		if fnPkgPath(fn) != modPath {
+			continue
+		}
+		for _, b := range fn.Blocks {
+			for _, ins := range b.Instrs {
+				c, ok := ins.(ssa.CallInstruction)
+				if !ok {
+					continue
+				}
+				kind, f := condCall(c)
+				if f != shared {
+					continue
+				}
+				nWake++
+				key := funcName(fn) + "|shared." + kind
+				if kind == "Broadcast" {
+					rep.OK("WAKEUP", key, p.InstrPos(ins), "all waiting readers are woken")
+				} else {
+					rep.Bad("WAKEUP", key, p.InstrPos(ins), "lock.shared is woken with Signal: any number of BeginReadonly callers can wait on it while a commit holds Pending, only one of them is woken and the others stay blocked although the lock is idle")
+				}
+			}
+		}
+	}
+	reaches := func(root *ssa.Function, cond *types.Var, kinds ...string) bool {
+		for f := range staticReach(p, root) {
+			for _, b := range f.Blocks {
+				for _, ins := range b.Instrs {
+					if c, ok := ins.(ssa.CallInstruction); ok {
+						kind, fv := condCall(c)
+						if fv == cond && nameIn(kind, kinds...) {
+							return true
+						}
+					}
+				}
+			}
+		}
+		return false
+	}
+	pu := p.Method("txfile", "pendingLock", "Unlock")
+	rep.Analysed(funcName(pu))
+	if reaches(pu, shared, "Broadcast") {
+		rep.OK("WAKEUP", "pendingLock.Unlock|wakes-readers", p.Pos(pu.Pos()), "")
+	} else {
+		rep.Bad("WAKEUP", "pendingLock.Unlock|wakes-readers", p.Pos(pu.Pos()), "releasing Pending does not Broadcast lock.shared: readers blocked by the commit are never (all) woken")
+	}
+	su := p.Method("txfile", "sharedLock", "Unlock")
+	rep.Analysed(funcName(su))
+	if reaches(su, excl, "Signal", "Broadcast") {
+		rep.OK("WAKEUP", "sharedLock.Unlock|wakes-exclusive", p.Pos(su.Pos()), "")
+	} else {
+		rep.Bad("WAKEUP", "sharedLock.Unlock|wakes-exclusive", p.Pos(su.Pos()), "releasing the last Shared lock does not wake lock.exclusive: a commit waiting for readers hangs forever")
+	}
+}
+
+// ruleFLOCKNOUNLINK (C18): a lock file must never be unlinked / renamed by the locking code: a waiter that
+// already opened it would lock the orphaned inode while a later opener locks a fresh file — two owners.
+func ruleFLOCKNOUNLINK(p *Program, rep *Report) {
+	rep.Rule("FLOCK-NO-UNLINK", 2, "no function of the path-lock implementation (reachable from osfs.File.Lock / Unlock) removes or renames a file: flock mutual exclusion is per inode, unlinking the lock file while it can still be locked lets two openers hold 'the' lock")
+	roots := []*ssa.Function{p.Method("internal/vfs/osfs", "File", "Lock"), p.Method("internal/vfs/osfs", "File", "Unlock")}
+	for _, fn := range sortedFns(staticReach(p, roots...)) {
+		rep.Analysed(funcName(fn))
+		bad := false
+		for _, b := range fn.Blocks {
+			for _, ins := range b.Instrs {
+				c, ok := ins.(ssa.CallInstruction)
+				if !ok {
+					continue
+				}
+				sc := c.Common().StaticCallee()
+				if sc == nil || sc.Pkg == nil {
+					continue
+				}
+				pkg, name := sc.Pkg.Pkg.Path(), sc.Name()
+				if (pkg == "os" && nameIn(name, "Remove", "RemoveAll", "Rename")) || (pkg == "syscall" && nameIn(name, "Unlink", "Unlinkat", "Rename", "Renameat")) ||
+					(pkg == "golang.org/x/sys/unix" && nameIn(name, "Unlink", "Unlinkat", "Rename", "Renameat")) {
+					bad = true
+					rep.Bad("FLOCK-NO-UNLINK", funcName(fn)+"|"+pkg+"."+name, p.InstrPos(ins), "the path-lock code calls "+pkg+"."+name+": removing or renaming the lock file while another process/File may already have it open breaks the exclusivity of the lock (two Files can be open on one path)")
+				}
+			}
+		}
+		if !bad {
+			rep.OK("FLOCK-NO-UNLINK", funcName(fn), p.Pos(fn.Pos()), "no unlink/rename")
+		}
+	}
+}
